@@ -46,7 +46,8 @@ def _check(ctx: Ctx) -> None:
     # --- FR
     eff = Effects(p)
     ws = [w for w in eff.writes("AbsoluteSequence", "quantise_note_lengths") if w.func == FN and w.kind == "attr"]
-    ctx.floor("attribute stores in quantise_note_lengths", len(ws), 1)
+    ctx.require("FR", f"{FN}: the fitted duration is written to the note-off", len(ws), 1, function=FN,
+                construct="quantise_note_lengths never writes a new end time", message="no store to a message attribute: every note keeps its length", file=fi.file, node=fi.node)
     for w in ws:
         t = w.node.target if isinstance(w.node, ast.AugAssign) else w.node.targets[0]
         base = t.value
@@ -131,6 +132,11 @@ def _check(ctx: Ctx) -> None:
     # --- KEEP: non-note messages copied through
     out = output_list_name(fi.node)
     loops = [n for n in fi.node.body if isinstance(n, ast.For) and attr_chain(n.iter) == ["self", "_messages"] and isinstance(n.target, ast.Name)]
+    if out is None and loops:
+        ctx.violation("KEEP", f"{FN}: the result list is installed as the sequence's event list", function=FN,
+                      construct="the operation never installs its result (`self._messages = <result list>` is missing)",
+                      message="the rebuilt list is dropped on return: the sequence is left exactly as it was", file=fi.file, node=fi.node)
+        return
     if out is None or not loops:
         raise AnalysisError(f"{FN}: output list / copy-through loop not found")
     lp = loops[-1]
